@@ -11,7 +11,12 @@ READY = True
 RUN_IMPORT = "Dom.ReactiveRun"
 IMPL_SHARDS = 8
 
-RULE = ("reactive view programs drawn from one PRNG (VERIF_SEED): static text | dynamic text (closure over signals) | "
+RULE = ("(a third of the cases additionally contain async leaves — closures returning Suspend over a fresh oneshot-"
+        "controlled future per run that reads signals inside the async block — and enumerated keyed lists driven by a "
+        "signal; their steps also complete outstanding futures in a chosen order, incl. older after newer, and all "
+        "futures are completed at the end; async-only programs are run a second time with a reduced observation that "
+        "is compared with the model) "
+        "reactive view programs drawn from one PRNG (VERIF_SEED): static text | dynamic text (closure over signals) | "
         "element with dynamic title= / class= / class:on= / style:width= closures and 0..3 children | conditional "
         "(closure returning Either, plain or through a memo as <Show> does), nested to depth 3, over 1..3 signals; "
         "a history of 1..6 steps, each a list of signal writes (incl. same-value writes and writes to signals nobody "
@@ -33,8 +38,9 @@ TRUSTED = [
 ASSUMPTIONS = [
     "closures are pure functions of the signals they read and read all of them on every run (no untrack, no writes from effects)",
     "every view renders to exactly one DOM node (text or element); fragments / lists as branch roots are outside the model",
-    "Suspense, ErrorBoundary, For/keyed at leptos level, resources and owner disposal events are not in the generated "
-    "programs of this check (left out — see the final report); C11/C03 cover keyed diff and rebuild in isolation",
+    "Suspense boundaries, ErrorBoundary, leptos-level <For>/<ForEnumerate> components (their tachys shape — keyed "
+    "with per-row index signal and OwnedView — is driven), resources and explicit owner-disposal events are not in the "
+    "generated programs; keyed lists are judged by the oracle only (not in the Coq model)",
 ]
 
 
@@ -123,6 +129,26 @@ def gen_ext_view(rng, nsig, depth, lab, in_if=False):
             gen_ext_view(rng, nsig, depth - 1, lab, True), gen_ext_view(rng, nsig, depth - 1, lab, True)]
 
 
+def async_labels(v):
+    if v[0] == 4:
+        return [v[1]]
+    if v[0] == 2:
+        return [l for k in v[2] for l in async_labels(k)]
+    if v[0] == 3:
+        return async_labels(v[4]) + async_labels(v[5])
+    return []
+
+
+def has_keyed(v):
+    if v[0] == 5:
+        return True
+    if v[0] == 2:
+        return any(has_keyed(k) for k in v[2])
+    if v[0] == 3:
+        return has_keyed(v[4]) or has_keyed(v[5])
+    return False
+
+
 def has_ext(v):
     if v[0] in (4, 5):
         return True
@@ -146,7 +172,14 @@ def gen_ext_case(rng):
         writes = [[rng.randrange(nsig), rng.choice([0, 1, 2, 3, 4])] for _ in range(rng.choice([0, 1, 1, 1, 2]))]
         picks = [rng.randint(0, 7) for _ in range(rng.choice([0, 0, 3, 6]))]
         r = rng.random()
-        comps = [] if r < 0.3 else ([0, 0, 0, 0] if r < 0.6 else [rng.randint(-2, 3) for _ in range(rng.randint(1, 3))])
+        alabs = async_labels(view)
+        if not alabs or r < 0.3:
+            comps = []
+        elif r < 0.6:
+            comps = [[l, 0] for l in alabs]
+        else:
+            # (l 0): the future of the latest run of closure l; (l 1): the superseded futures of l
+            comps = [[rng.choice(alabs), rng.choice([0, 0, 1])] for _ in range(rng.randint(1, 3))]
         steps.append([writes, picks, comps])
     return dict(case=[view, sigs, steps, [rng.randint(0, 1)]], kind="async-keyed", compare=False)
 
@@ -155,7 +188,12 @@ def generate(rng, tier):
     n = 4000 if tier == "quick" else 60000
     for i in range(n):
         if i % 3 == 0:
-            yield gen_ext_case(rng)
+            it = gen_ext_case(rng)
+            yield it
+            if not has_keyed(it["case"][0]):
+                # the same program with the reduced observation (nodes on screen at every idle point),
+                # compared with the model, which has async leaves but no keyed lists
+                yield dict(case=it["case"] + [[1]], kind="async-model", compare=True)
         nsig = rng.choice([1, 2, 2, 3])
         view = gen_view(rng, nsig, rng.choice([1, 2, 2, 3, 3]), Lab())
         if rng.random() < 0.5:
@@ -373,6 +411,8 @@ def oracle(item, impl):
         return "harness error / panic: " + impl[:200]
     if item.get("kind") == "async-keyed":
         return oracle_ext(item, impl)
+    if item.get("kind") == "async-model":
+        return None          # judged on its async-keyed twin; this copy only feeds the model comparison
     view, sigs, steps = item["case"]
     s = list(sigs)
     if len(impl) != len(steps) + 1:
@@ -409,7 +449,7 @@ def oracle(item, impl):
 def nontrivial(item, model):
     if item.get("kind") == "async-keyed":
         return True
-    if isinstance(model, str):
+    if isinstance(model, str) or item.get("kind") == "async-model":
         return False
     for k in range(1, len(model)):
         if model[k][0] and plain(model[k][1]) != plain(model[k - 1][1]):
@@ -419,6 +459,9 @@ def nontrivial(item, model):
 
 def valid_case(item):
     c = item["case"]
+    if item.get("kind") == "async-model":
+        return (isinstance(c, list) and len(c) == 5 and c[4] == [1] and not has_keyed(c[0])
+                and valid_case(dict(case=c[:4], kind="async-keyed")))
     if item.get("kind") == "async-keyed":
         try:
             view, sigs, steps, drain = c
@@ -427,7 +470,8 @@ def valid_case(item):
                     and all(x >= 0 for x in sigs) and _shape_ok(view, len(sigs)) and drain in ([0], [1])
                     and all(len(st) == 3 and all(0 <= i < len(sigs) and x >= 0 for i, x in st[0])
                             and all(isinstance(k, int) and k >= 0 for k in st[1])
-                            and all(isinstance(k, int) for k in st[2]) for st in steps))
+                            and all(isinstance(k, list) and len(k) == 2 and k[0] in labs and k[1] in (0, 1)
+                                    for k in st[2]) for st in steps))
         except Exception:
             return False
     try:
@@ -500,8 +544,8 @@ def _sv(v):
 
 
 def describe(it):
-    if it.get("kind") == "async-keyed":
-        view, sigs, steps, drain = it["case"]
+    if it.get("kind") in ("async-keyed", "async-model"):
+        view, sigs, steps, drain = it["case"][:4]
         return "mount %s with s=%r; steps %s; then complete all (%s first)" % (_sv(view), sigs, "; ".join(
             "set %s, poll order %r, complete futures %r" % (",".join("s%d=%d" % (i, x) for i, x in w), p, c)
             for w, p, c in steps), "newest" if drain[0] else "oldest")
@@ -515,7 +559,7 @@ def coverage_extra(results):
     switches = 0
     for r in results:
         m = r["model"]
-        if isinstance(m, str) or r["item"].get("kind") == "async-keyed":
+        if isinstance(m, str) or r["item"].get("kind") in ("async-keyed", "async-model"):
             continue
         for k in range(1, len(m)):
             runs += len(m[k][0])
